@@ -276,6 +276,18 @@ class TurnComp(Component):
             ents = [{"text": rng.choice(["", " ", "  s1  ", "two words", "x", "\tTabbed\n"]) if rng.random() < 0.5 else gen_text(rng, False, 4),
                      "vec": rng.random() < 0.3} for _ in range(rng.choice([0, 1, 2, 3, 3, 4]))]
             o["stub"] = {"summary": gen_text(rng, False, 5), "entries": ents}
+        wp = None
+        if rng.random() < 0.18:
+            # write-path shape: a result with 2-4 entries, a cap around the entry count, and a per-add fault pattern drawn
+            # uniformly from ALL subsets of entry positions (the k-th add() of the scripted index raises)
+            mode = "stub"
+            o.pop("exc", None)
+            ne = rng.choice([2, 2, 3, 3, 4])
+            pool = ["first note", "second  note", "x", " padded ", "same", "same", "third, one!", "Z z"]
+            ents = [{"text": rng.choice(pool), "vec": rng.random() < 0.2} for _ in range(ne)]
+            o["stub"] = {"summary": "multi entry result", "entries": ents}
+            mask = rng.randrange(1 << ne)
+            wp = {"ne": ne, "cap": rng.choice([ne - 1, ne, ne, ne + 1, 2, 5]), "addFail": [bool(mask >> k & 1) for k in range(ne)]}
         ar = rng.random()
         if ar < 0.70:
             raw = gen_text(rng, uni, 8) if rng.random() < 0.9 else rng.choice(["", "   ", "\n"])
@@ -300,7 +312,12 @@ class TurnComp(Component):
              "utter": gen_text(rng, uni),
              "items": [gen_text(rng, uni, 5) if rng.random() < 0.8 else "" for _ in range(rng.choice([0, 1, 2, 3, 4, 6]))],
              "arts": [gen_text(rng, uni, 3) for _ in range(rng.choice([0, 0, 0, 2]))]}
-        if rng.random() < 0.07:
+        if wp is not None:
+            t.update({"dry": False, "plan": True})
+            t["cfg"].update({"allow": True, "opsCap": wp["cap"], "wallMs": None})
+            o.update({"addFail": wp["addFail"], "runFault": False, "indexMissing": False, "writeFault": False})
+            t["writepath"] = True
+        elif rng.random() < 0.07:
             # malformed stream: values the validator would refuse or coerce (they reach the code through the raw-merge
             # fallback of the rig), non-string snippet sources
             kind = rng.choice(["topk", "limit", "limit_numstr", "ops_str", "ops_numstr", "ops_float", "wall_str", "wall_numstr",
@@ -454,11 +471,16 @@ class TurnComp(Component):
             def __init__(self):
                 super().__init__()
                 self.script: List[bool] = []
+                self.calls = 0                 # add() calls in the current turn
+                self.ok_pos: List[int] = []    # ordinal (= entry position) of every add() that persisted a row
 
             def add(self, ep):  # type: ignore[override]
+                k = self.calls
+                self.calls += 1
                 flag = self.script.pop(0) if self.script else False
                 if flag:
                     raise RuntimeError("injected:index.add")
+                self.ok_pos.append(k)
                 return super().add(ep)
 
         agent = case["agent"]
@@ -599,6 +621,7 @@ class TurnComp(Component):
                 else:
                     w.state["memory_index"] = idx
                 idx.script = list(o["addFail"])
+                idx.calls, idx.ok_pos = 0, []
                 n0 = len(idx._eps)
                 beh = {"t1": TR.stub({"metrics": {"pops": 1, "iters": 1, "graphs_touched": 1}}),
                        "t2": TR.stub({"retrieved": [{"id": f"e{k}", "text": (s if s != "" else None), "score": 0.5}
@@ -626,7 +649,10 @@ class TurnComp(Component):
                 new = idx._eps[n0:]
                 written = [{"id": e.get("id"), "owner": e.get("owner"), "ts": e.get("ts"), "kind": e.get("kind"),
                             "tags": e.get("tags"), "text": e.get("text"), "vec": "vec_full" in e,
-                            "keys": sorted(e.keys())} for e in new]
+                            "keys": sorted(e.keys()),
+                            # the writer makes one add() per entry, in order: the ordinal of the add() call that
+                            # persisted this row is the entry's POSITION in the (capped) result list
+                            "pos": (idx.ok_pos[k] if k < len(idx.ok_pos) else None)} for k, e in enumerate(new)]
                 sites = [c0[0] for c0 in run.calls]
                 logs = {s: v for s, v in run.logs.items() if s != "t3_reflection"}
                 outs.append({"reached": "reflect_run" in sites, "called": calls["reflect"] > 0,
@@ -827,6 +853,18 @@ class TurnComp(Component):
             for slot_guess, e in enumerate(x["written"]):
                 # id / ts are the pure function of (agent, turn, slot, text) and the logical clock
                 ids = {pure_id(case["agent"], str(t["turn_id"]), s, str(e["text"])) for s in range(0, 8)}
+                # C19_id_pure's function on every written row: slot = the entry's position, whatever happened to the
+                # earlier entries; text = the entry's text as produced (the stored text is its strip())
+                pos = e.get("pos")
+                if pos is not None and o["mode"] in ("real", "stub"):
+                    src = str(e["text"])
+                    if o["mode"] == "stub" and pos < len(o["stub"]["entries"]):
+                        src = str(o["stub"]["entries"][pos]["text"])
+                    want_id = pure_id(case["agent"], str(t["turn_id"]), pos, src)
+                    res.append(("id_pure_slot", e["id"] == want_id and str(e["text"]) == src.strip(),
+                                f"turn {i}: row persisted for entry position {pos} (text {src!r}) has id {e['id']!r}, but "
+                                f"id(agent={case['agent']!r}, turn={t['turn_id']!r}, slot={pos}, text) = {want_id!r}: the id depends on "
+                                f"something else (add() fault pattern {o['addFail']})"))
                 if o["mode"] == "real":
                     res.append(("id_pure", e["id"] in ids, f"turn {i}: id {e['id']} is not refl-<turn>-<agent>-<slot>-sha256(agent|turn|slot|text)[:12] for text {e['text']!r}"))
                     res.append(("summary_len_py", len(str(e["text"]).split()) <= lim,
@@ -855,7 +893,7 @@ class TurnComp(Component):
                 if x["written"] != z["written"] or x["rlog"] != z["rlog"]:
                     res.append(("clock_indep", False, f"turn {i}: ids/ts/records differ between two runs of the same history under different wall clocks / reflect durations"))
         # summarise: one positive entry per monitor name so that evidence shows they ran
-        names = {"turn_completes", "id_pure", "summary_len_py", "ts_logical", "entry_shape", "one_log_line", "isolation",
+        names = {"turn_completes", "id_pure", "id_pure_slot", "summary_len_py", "ts_logical", "entry_shape", "one_log_line", "isolation",
                  "off_is_off", "clock_indep"}
         failed = {n for n, ok, _ in res if not ok}
         return [r for r in res if not r[1]] + [(n, True, "") for n in sorted(names - failed)]
@@ -874,6 +912,11 @@ class TurnComp(Component):
             for a, b in zip(ads, ads[1:]):
                 tg.add(f"fx:{a}->{b}")
         for r in case["turns"]:
+            if r["t"].get("writepath"):
+                af = r["o"]["addFail"]
+                tg.add(f"writepath:n={len(af)}")
+                if any(af[k] and not all(af[k + 1:]) for k in range(len(af) - 1)):
+                    tg.add("writepath:earlier_add_fails_later_succeeds")
             if r["t"]["nowMs"] in (0, 1, None):
                 tg.add(f"clock:now_ms={r['t']['nowMs']}")
         prev_open_ok = False
